@@ -145,8 +145,9 @@ class Latency:
         at regular intervals to measure and track latency statistics.
         """
         if self._ping_thread_instance is None or not self._ping_thread_instance.is_alive():
-            self._stop_event.clear()
-            self._ping_thread_instance = Thread(target=self._ping_thread)
+            # Each ping thread has its own stop event, a stopped thread can finish on its own
+            self._stop_event = Event()
+            self._ping_thread_instance = Thread(target=self._ping_thread, args=(self._stop_event,))
             self._ping_thread_instance.start()
 
     def stop(self):
@@ -156,12 +157,12 @@ class Latency:
         This method stops the background thread and ceases sending further
         ping requests, halting latency measurement.
         """
+        # Do not join the ping thread: stop() is called from the disconnected callback, possibly by the
+        # ping thread itself or by a thread holding the send lock that the ping thread is waiting for
         self._stop_event.set()
-        if self._ping_thread_instance is not None:
-            self._ping_thread_instance.join()
-            self._ping_thread_instance = None
+        self._ping_thread_instance = None
 
-    def _ping_thread(self, interval: float = 0.1) -> None:
+    def _ping_thread(self, stop_event: Event, interval: float = 0.1) -> None:
         """
         Background thread method that sends a ping to the Crazyflie at regular intervals.
 
@@ -169,9 +170,10 @@ class Latency:
         until the stop event is set.
 
         Args:
+            stop_event (Event): Set to stop this thread.
             interval (float): The time (in seconds) to wait between ping requests. Default is 0.1 seconds.
         """
-        while not self._stop_event.is_set():
+        while not stop_event.is_set():
             self.ping()
             time.sleep(interval)
 
